@@ -361,6 +361,64 @@ def interpolation_programs():
     return out
 
 
+def nesting_programs():
+    """a try statement as the SOLE statement of another try's block, catch body or finally body — every combination of
+    outer shape (catch / catch+finally / finally) and inner shape (finally / catch / catch+finally), thrown class matched by
+    the inner clause, only by the outer clause, by neither; the inner finally plain, returning (inside a function) or
+    throwing something else the outer clause matches or not.  The order of the markers tells whether the inner finally ran
+    BEFORE the outer handler (two nested statements are not one statement with merged clauses)."""
+    out = []
+    shapes_outer = {"c": (True, False), "cf": (True, True), "f": (False, True)}
+    shapes_inner = {"f": (False, True), "c": (True, False), "cf": (True, True)}
+    fin_actions = {"plain": [echo("{if}")], "return": [echo("{if}"), ["return", lit(7)]], "throwE4": [echo("{if}"), ["throw", ["new", "E4", lit("fromfin")]]],
+                   "throwE1": [echo("{if}"), ["throw", ["new", "E1", lit("fromfin1")]]]}
+    for on, (oc, of) in shapes_outer.items():
+        for inn, (ic, if_) in shapes_inner.items():
+            for thrown in ("E2", "E3", None):                        # E2: inner catch (E2) / outer catch (E1); E3: neither of those, outer Exception? no: see clauses
+                for fa, fbody in fin_actions.items():
+                    if not if_ and fa != "plain":
+                        continue
+                    for where in ("try", "catch", "finally"):
+                        if where == "catch" and not oc or where == "finally" and not of:
+                            continue
+                        if where != "try" and (fa not in ("plain", "throwE4") or thrown is None):
+                            continue
+                        ibody = [echo("(i)")] + ([["throw", ["new", thrown, lit("m")]]] if thrown else []) + [echo("never" if thrown else ";iend")]
+                        inner = ["try", ibody, [["E2", "e", [echo("<iE2>")]]] if ic else [], fbody if if_ else None]
+                        ocl = [["E1", "e", [echo("<oE1>"), ["echo", ["msg", var("e")]]]], ["E4", "e", [echo("<oE4>")]]] if oc else []
+                        if where == "try":
+                            outer = ["try", [inner], ocl, [echo("{of}")] if of else None]
+                        elif where == "catch":
+                            outer = ["try", [echo("(o)"), ["throw", ["new", "E1", lit("first")]]], [["E1", "x", [inner]]] + ocl[1:], [echo("{of}")] if of else None]
+                        else:
+                            outer = ["try", [echo("(o)")], ocl, [inner]]
+                        f = {"name": "run", "params": [], "body": [outer, echo(";fell"), ["return", lit(1)]]}
+                        main = [["try", [tag("R=", ["call", "run", []])], [["Exception", "z", [echo(";top:"), ["echo", ["class", var("z")]]]]], [echo(";F")]]]
+                        out.append({"classes": CLASSES, "ifaces": IFACES, "funcs": [f], "main": main})
+    return out
+
+
+def root_name_programs():
+    """catch clauses naming the built-in roots and their look-alikes — Error, TypeError|Error, Error|E4, Foo\\Exception,
+    Foo\\Error, Foo\\Throwable, Foo\\Bar\\Throwable, ErrorException, TypeError, ArgumentCountError — placed BEFORE the clause that
+    really matches (and alone in an inner try, the outer try catching the class), against thrown USER exception objects
+    and against internal errors (undefined function): a user exception is an Exception, never an Error, and a namespaced
+    class is not a root because of its last segment (/repo e2ad5fe, 83be0a6)."""
+    out = []
+    first = ["Error", "TypeError|Error", "Error|E4", "Foo\\Exception", "Foo\\Error", "Foo\\Throwable", "Foo\\Bar\\Throwable", "ErrorException",
+             "TypeError", "ArgumentCountError", "Exception", "Throwable"]
+    raisers = {"E1": ["throw", ["new", "E1", lit("m")]], "E2": ["throw", ["new", "E2", lit("m")]], "E3": ["throw", ["new", "E3", lit("m")]],
+               "E4": ["throw", ["new", "E4", lit("m")]], "internal": ["expr", ["call", "nosuch", [lit(1)]]]}
+    for rn, rz in raisers.items():
+        for fc in first:
+            for rest in (["E1", "Exception"], ["Throwable"], []):
+                catches = [[ty, "e", [echo("<%s>" % ty.replace("\\", "/"))]] for ty in [fc] + rest]
+                inner = ["try", [echo("t;"), rz, echo("never")], catches, [echo(";f")]]
+                out.append({"classes": CLASSES, "ifaces": IFACES, "funcs": [],
+                            "main": [["try", [inner, echo(";after")], [["Exception", None, [echo(";outer")]]], [echo(";F")]]]})
+    return out
+
+
 def hierarchy_programs():
     """interfaces declared at every level of the extends chain (own class, parent, grandparent) and reached through
     interface-extends chains; the catch clauses are ordered so that a wrong answer of the type test changes which
@@ -853,6 +911,10 @@ def main(ck):
             cases.append((pr, "reentry"))
         for pr in interpolation_programs():
             cases.append((pr, "interpolation"))
+        for pr in nesting_programs():
+            cases.append((pr, "nesting"))
+        for pr in root_name_programs():
+            cases.append((pr, "rootnames"))
         nrand = 250 if ck.tier == "quick" else 4000
         discarded = 0
         while nrand > 0:
